@@ -245,6 +245,35 @@ pub fn generate(tier: Tier, rng: &mut Rng) -> Vec<Case> {
             out.push(c);
         }
     }
+    // the outer iteration variable used ONLY inside a nested macro (body, predicate or range), at
+    // two and three levels, with and without a root variable of the same name; maps as ranges
+    for root_x in [false, true] {
+        let mut spec = CtxSpec::default_ctx();
+        if root_x {
+            spec.vars.push(("x".into(), Value::Int(100)));
+            spec.vars.push(("k".into(), Value::String(std::sync::Arc::new("root".into()))));
+        }
+        for src in [
+            "[1, 2].map(x, [10].map(y, x + y))",
+            "[1, 2].map(x, [10, 20].filter(y, y > x * 10))",
+            "[1, 2].all(x, [1, 2, 3].exists(y, y == x))",
+            "[1, 2].exists(x, [x].all(y, y == 2))",
+            "[1, 2].map(x, [3].map(y, [4].map(z, x + y + z)))",
+            "[[1], [2, 3]].map(x, x.map(y, size(x) + y))",
+            "{'a': 1}.all(k, ['a', 'b'].exists(s, s == k))",
+            "{'a': 1}.map(k, [1].map(i, k))",
+            "[1, 2].filter(x, [0].all(y, x > 1))",
+            "[1, 2].map(x, [5].map(x, x))",
+            "[1, 2].map(x, [x].map(x, x * 2))",
+            "[1, 2].exists_one(x, [1].exists(y, x == 2 && y == 1))",
+            "[1, 2].map(x, x > 1, [7].map(y, x * y))",
+        ] {
+            if let Some(mut c) = eval_case_from_src(&spec, src) {
+                c.tags = vec!["program", "outer-var-only-nested"];
+                out.push(c);
+            }
+        }
+    }
     out
 }
 
